@@ -343,11 +343,6 @@ class Array:
                 self.rank,
                 self.shape,
             ) = state
-            if isinstance(labels, dict):  # old format: {label: axis}
-                labels_list = [None] * self.rank
-                for label, axis in labels.items():
-                    labels_list[axis] = label
-                labels = labels_list
             self._labels = [None] * self.rank
             self.iset_leg_labels(labels)
         else:
